@@ -32,8 +32,6 @@ ToSlots(s) == [i \in DOMAIN s |-> ToSlot(s[i])]
 ToRecs(s) == [i \in DOMAIN s |-> ToRec(s[i])]
 ToBools(s) == [i \in DOMAIN s |-> s[i] = 1]
 
-Failing(clauses) == {n \in DOMAIN clauses : ~clauses[n]}
-
 Report(f) == IF f = {} THEN TRUE ELSE PrintT(<<"FAIL", tid, l, Ev.ev, f>>)
 
 Step(f) == /\ fails' = f
@@ -63,17 +61,13 @@ TRunBegin ==
        /\ UNCHANGED <<cfg, ess, logz, wts, cur, modes, nsw>>
        /\ Step(Failing([IF_Zero |-> (~o.resumed) => IF_Zero(o)]))
 
+PcOk(b) == [PC_Order |-> b]
+
 TReweight ==
     /\ IsEvent("Reweight")
     /\ LET o == Ev IN
-       /\ iter' = o.iter /\ beta' = o.beta /\ ess' = o.ess /\ logz' = o.logz /\ wts' = o.wts
-       /\ pc' = "reweighted"
-       /\ UNCHANGED <<cfg, calls, evals, cur, hist, clus, modes, nsw>>
-       /\ Step(Failing([PC_Order |-> pc = "ready",
-                        RW_Iter |-> RW_Iter(o), RW_FirstZero |-> RW_FirstZero(o),
-                        RW_Monotone |-> RW_Monotone(o), RW_Bounded |-> RW_Bounded(o),
-                        RW_AdvanceESS |-> RW_AdvanceESS(o), RW_Limit |-> RW_Limit(o),
-                        RW_SameBeta |-> RW_SameBeta(o), RW_RefAgrees |-> RW_RefAgrees(o)]))
+       /\ ReweightU(o)
+       /\ Step(Failing(PcOk(pc = "ready") @@ RW_Clauses(o)))
 
 TTrain ==
     /\ IsEvent("Train")
@@ -82,11 +76,7 @@ TTrain ==
        /\ modes' = o.modes
        /\ pc' = "trained"
        /\ UNCHANGED <<cfg, iter, beta, ess, logz, wts, calls, evals, cur, hist, nsw>>
-       /\ Step(Failing([PC_Order |-> pc = "reweighted",
-                        TR_Skip |-> TR_Skip(o), TR_Branch |-> TR_Branch(o),
-                        TR_PredictFitted |-> TR_PredictFitted(o), TR_Cadence |-> TR_Cadence(o),
-                        TR_FitSets |-> TR_FitSets(o), TR_Cap |-> TR_Cap(o),
-                        TR_ModesOK |-> TR_ModesOK(o), TR_ModesExist |-> TR_ModesExist(o)]))
+       /\ Step(Failing(PcOk(pc = "reweighted") @@ TR_Clauses(o)))
 
 TResample ==
     /\ IsEvent("Resample")
@@ -94,82 +84,54 @@ TResample ==
        /\ cur' = o.slots
        /\ pc' = "resampled"
        /\ UNCHANGED <<cfg, iter, beta, ess, logz, wts, calls, evals, hist, clus, modes, nsw>>
-       /\ Step(Failing([PC_Order |-> pc = "trained",
-                        RS_WholeCopies |-> RS_WholeCopies(o), RS_Count |-> RS_Count(o),
-                        RS_LabelRange |-> RS_LabelRange(o)]))
+       /\ Step(Failing(PcOk(pc = "trained") @@ RS_Clauses(o)))
 
 TMutatePrior ==
     /\ IsEvent("MutatePrior")
     /\ LET o == [slots |-> ToSlots(Ev.slots), dEvals |-> Ev.dEvals, calls |-> Ev.calls,
                  nInf |-> Ev.nInf, zInHull |-> Ev.zInHull, logz |-> Ev.logz] IN
-       /\ cur' = o.slots
-       /\ calls' = o.calls /\ evals' = evals + o.dEvals /\ logz' = o.logz
-       /\ pc' = "mutated"
-       /\ UNCHANGED <<cfg, iter, beta, ess, wts, hist, clus, modes, nsw>>
-       /\ Step(Failing([PC_Order |-> pc = "resampled" /\ beta = 0,
-                        MP_Count |-> MP_Count(o), MP_Coherent |-> MP_Coherent(o), MP_NoInf |-> MP_NoInf(o),
-                        MP_Calls |-> MP_Calls(o), MP_Evals |-> MP_Evals(o), MP_LogzHull |-> MP_LogzHull(o)]))
+       /\ MutatePriorU(o)
+       /\ Step(Failing(PcOk(pc = "resampled" /\ beta = 0) @@ MP_Clauses(o)))
 
 TMutateBegin ==
     /\ IsEvent("MutateBegin")
     /\ LET o == [slots |-> ToSlots(Ev.slots), modes |-> Ev.modes, modesOK |-> Ev.modesOK] IN
-       /\ cur' = o.slots
-       /\ pc' = "mutating" /\ nsw' = 0
-       /\ UNCHANGED <<cfg, iter, beta, ess, logz, wts, calls, evals, hist, clus, modes>>
-       /\ Step(Failing([PC_Order |-> pc = "resampled" /\ beta > 0,
-                        MB_SameSlots |-> MB_SameSlots(o), MB_Labels |-> MB_Labels(o), MB_ModesOK |-> MB_ModesOK(o)]))
+       /\ MutateBeginU(o)
+       /\ Step(Failing(PcOk(pc = "resampled" /\ beta > 0) @@ MB_Clauses(o)))
 
 TSweep ==
     /\ IsEvent("Sweep")
     /\ LET o == [mask |-> ToBools(Ev.mask), prop |-> ToRecs(Ev.prop), slots |-> ToSlots(Ev.slots), dEvals |-> Ev.dEvals] IN
-       /\ cur' = o.slots
-       /\ evals' = evals + o.dEvals
-       /\ nsw' = nsw + 1
-       /\ UNCHANGED <<pc, cfg, iter, beta, ess, logz, wts, calls, hist, clus, modes>>
-       /\ Step(Failing([PC_Order |-> pc = "mutating",
-                        SW_PropCoherent |-> SW_PropCoherent(o),
-                        SW_Update |-> (Len(o.slots) = Len(cur) /\ Len(o.mask) = Len(cur) /\ Len(o.prop) = Len(cur)) /\ SW_Update(o),
-                        SW_Evals |-> SW_Evals(o)]))
+       /\ SweepU(o)
+       /\ Step(Failing(PcOk(pc = "mutating") @@ SW_Clauses(o)))
 
 TMutateEnd ==
     /\ IsEvent("MutateEnd")
     /\ LET o == [slots |-> ToSlots(Ev.slots), calls |-> Ev.calls, dEvals |-> Ev.dEvals] IN
-       /\ cur' = o.slots
-       /\ calls' = o.calls
-       /\ pc' = "mutated"
-       /\ UNCHANGED <<cfg, iter, beta, ess, logz, wts, evals, hist, clus, modes, nsw>>
-       /\ Step(Failing([PC_Order |-> pc = "mutating",
-                        ME_Slots |-> ME_Slots(o),
-                        ME_Calls |-> ME_Calls(o),
-                        ME_Swept |-> ME_Swept(o)]))
+       /\ MutateEndU(o)
+       /\ Step(Failing(PcOk(pc = "mutating") @@ ME_Clauses(o)))
 
 TCommit ==
     /\ IsEvent("Commit")
     /\ LET o == [batch |-> ToRecs(Ev.batch), histLen |-> Ev.histLen, keyLens |-> Ev.keyLens, prefixSame |-> Ev.prefixSame] IN
-       /\ hist' = Append(hist, [iter |-> iter, beta |-> beta, parts |-> o.batch])
-       /\ pc' = "ready"
-       /\ UNCHANGED <<cfg, iter, beta, ess, logz, wts, calls, evals, cur, clus, modes, nsw>>
-       /\ Step(Failing([PC_Order |-> pc = "mutated",
-                        CM_Append |-> CM_Append(o), CM_OnePerKey |-> CM_OnePerKey(o),
-                        CM_PrefixSame |-> CM_PrefixSame(o), CM_Coherent |-> CM_Coherent(o),
-                        CM_NoInf |-> CM_NoInf(o),
-                        CallsExact |-> calls = evals]))
+       /\ CommitU(o)
+       /\ Step(Failing(PcOk(pc = "mutated") @@ CM_Clauses(o)))
 
 TTerminate ==
     /\ IsEvent("Terminate")
     /\ LET o == Ev IN
-       /\ logz' = o.evid
-       /\ pc' = "done"
-       /\ UNCHANGED <<cfg, iter, beta, ess, wts, calls, evals, cur, hist, clus, modes, nsw>>
-       /\ Step(Failing([PC_Order |-> pc = "ready" /\ hist # <<>>,
-                        TM_NearOne |-> TM_NearOne(o), TM_ESS |-> TM_ESS(o), TM_Evidence |-> TM_Evidence(o)]))
+       /\ TerminateU(o)
+       /\ Step(Failing(PcOk(pc = "ready" /\ hist # <<>>) @@ TM_Clauses(o)))
 
 \* an exception escaped a pipeline step / the run: no PSRun action matches it
 TRaised ==
     /\ IsEvent("Raised")
     /\ pc' = "done"
     /\ UNCHANGED <<cfg, iter, beta, ess, logz, wts, calls, evals, cur, hist, clus, modes, nsw>>
-    /\ Step({"NoRaise"})
+    /\ Step({"NoRaise"} \cup
+            \* raised inside Train in a state where the code-shaped predict-only branch runs on an unfitted clusterer
+            (IF pc = "reweighted" /\ cfg.clustering /\ beta > 0 /\ ~clus.fitted /\ iter % cfg.clusterEvery # 0
+             THEN {"RZ_UnfittedPredict"} ELSE {}))
 
 \* observations that have no PSRun action of their own (checked against the state, no state change)
 TPosterior ==
